@@ -667,6 +667,9 @@ def run(chk, fb, tier):
     rule_key(chk, fb)
     rule_rich_text_value(chk, fb)
     rule_rich_text_set(chk, fb)
+    import symmetry
+
+    symmetry.rule_text_untrimmed(chk, fb, "C01.c.trim")
     from props import C06
 
     C06.rule_variants(chk, fb, "C01.a.variants")
